@@ -306,6 +306,10 @@ partial def judgeLoop (h : Hist) (names : List (List String)) (recs : List Rec) 
     let fail (c : String) := s!"fail {c} @op{idx}:{" ".intercalate ws}"
     if !(["ok", "ok:filled", "ok:unfilled", "bad_alloc", "ctor_throw", "nocompile", "skip"].contains r.outcome) ∧ !(r.outcome.startsWith "assert:") then
       fail ("no-crash:" ++ r.outcome)
+    else if r.outcome = "assert:_alloc==img._alloc" ∧ ws.head? = some "swap" ∧ !h.cfg.pocs ∧ !h.cfg.empty then
+      -- contract of image::swap (BOOST_ASSERT(_alloc == img._alloc) when the allocator does not propagate on swap): a user level swap of
+      -- unequal instances is diagnosed in assert-enabled builds; that the instances really were unequal is the model's prediction (correspondence)
+      "ok"
     else if r.outcome.startsWith "assert:" then
       -- an assertion inside the library on an in-contract history (user level swap of unequal non-propagating allocators is excluded by the generator)
       fail ("no-assertion-failure:" ++ (r.outcome.drop 7).toString)
